@@ -407,4 +407,220 @@ theorem dec_first_block (cs m : List UInt8)
     have hbl := decode_block_len (cs.take 43) b (by rw [List.length_take]; omega) hd
     exact ⟨b, _, _, rfl, hbl, rfl, rfl⟩
 
+
+/-! ## the normalised classifier once a block is shown -/
+
+/-- what the classifier concludes from the frame label and the binary verdict -/
+def conclude (brand typStr : Bytes) (bv : Verdict (Int × Version)) : Verdict (Bytes × Int × Version) :=
+  match bv with
+  | .short => .short
+  | .eof => .eof
+  | .notSaltpack => .notSaltpack
+  | .unmodelled w => .unmodelled w
+  | .ok (t, ver) =>
+    let aty := typeOfArmorString typStr
+    if ((t == mtSigncryption || t == mtEncryption) && aty != mtEncryption) ||
+       (t == mtAttached && aty != mtAttached) || (t == mtDetached && aty != mtDetached)
+    then .notSaltpack else .ok (brand, t, ver)
+
+theorem classifyNorm_header (s brand typStr payload : Bytes) (h : matchHeader s = some (brand, typStr, payload)) :
+    classifyNorm s =
+      if (decOf payload).length < 32 then .short else conclude brand typStr (binarySlice (decOf payload)) := by
+  unfold classifyNorm
+  rw [h]
+  rfl
+
+/-- the first decoded block (32 bytes) of the shown payload characters; empty if
+    there is none -/
+def firstBlockOf (payload : Bytes) : Bytes :=
+  match Basex.decode Gen.base62Std.strict ((charsOf payload).take 43) with
+  | .ok b => b
+  | .error _ => []
+
+theorem charsOf_ext (rest x : Bytes) :
+    ∃ m, charsOf ((rest ++ x).takeWhile okc) = charsOf (rest.takeWhile okc) ++ m := by
+  obtain ⟨m, hm⟩ := takeWhile_append_ext okc rest x
+  exact ⟨charsOf m, by unfold charsOf; rw [hm, List.filter_append]⟩
+
+/-- **once the frame, its period and a full first block are shown, every
+    extension of the (normalised) text is classified by the binary classifier on
+    `first block ++ …`; if the first block alone decides the binary verdict, the
+    verdict never changes** -/
+theorem norm_block_stable (s brand typStr payload x : Bytes)
+    (h : matchHeader s = some (brand, typStr, payload)) (h32 : 32 ≤ (decOf payload).length)
+    (hset : ∀ e, binarySlice (firstBlockOf payload ++ e) = binarySlice (firstBlockOf payload)) :
+    classifyNorm (s ++ x) = classifyNorm s := by
+  obtain ⟨rest, hpl, hm'⟩ := matchHeader_append s brand typStr payload x h
+  obtain ⟨m, hm⟩ := charsOf_ext rest x
+  rw [← hpl] at hm
+  obtain ⟨b, more, more', hd, hbl, h1, h2⟩ := dec_first_block (charsOf payload) m h32
+  have hfb : firstBlockOf payload = b := by unfold firstBlockOf; rw [hd]
+  rw [classifyNorm_header _ _ _ _ h, classifyNorm_header _ _ _ _ hm']
+  have e1 : decOf payload = b ++ more := h1
+  have e2 : decOf ((rest ++ x).takeWhile okc) = b ++ more' := by unfold decOf; rw [hm]; exact h2
+  rw [e1, e2, if_neg (by simp only [List.length_append]; omega), if_neg (by simp only [List.length_append]; omega)]
+  rw [← hfb, hset more, hset more']
+
+
+/-! ## the normalised text grows with the text -/
+
+section
+variable {s2 : UInt8 → UInt8 → Bool} {s3 : UInt8 → UInt8 → UInt8 → Bool}
+
+/-- trimming `u ++ w` from the front never eats into `w` when `w` starts with an
+    ASCII byte that is not white space -/
+theorem trimRunes_stop (H : HighOnly s2 s3) (k : UInt8) (w' : Bytes) (hk : isTrimSpace k = false) (hk128 : k < 128)
+    (u : Bytes) : ∃ x', trimRunes s2 s3 (u ++ k :: w') = x' ++ k :: w' := by
+  fun_induction trimRunes s2 s3 u with
+  | case1 => exact ⟨[], by rw [List.nil_append, trimRunes_keep H k w' hk hk128]⟩
+  | case2 c r hc ih =>
+    rw [List.cons_append, trimRunes_cons_space _ _ hc]; exact ih
+  | case3 c hc =>
+    have hc' : isTrimSpace c = false := by simpa using hc
+    refine ⟨[c], ?_⟩
+    cases w' with
+    | nil => simp [trimRunes, hc', H.h2b c k hk128]
+    | cons e q'' => simp [trimRunes, hc', H.h2b c k hk128, H.h3b c k e hk128]
+  | case4 c hc d r' h2 ih =>
+    have hc' : isTrimSpace c = false := by simpa using hc
+    rw [List.cons_append, List.cons_append, trimRunes_cons2 _ _ _ hc' h2]
+    exact ih
+  | case5 c hc d h2 =>
+    have hc' : isTrimSpace c = false := by simpa using hc
+    have h2' : s2 c d = false := by simpa using h2
+    exact ⟨[c, d], by simp [trimRunes, hc', h2', H.h3c c d k hk128]⟩
+  | case6 c hc d h2 e r'' h3 ih =>
+    have hc' : isTrimSpace c = false := by simpa using hc
+    have h2' : s2 c d = false := by simpa using h2
+    rw [List.cons_append, List.cons_append, List.cons_append, trimRunes_cons3 _ _ _ _ hc' h2' h3]
+    exact ih
+  | case7 c hc d h2 e r'' h3 =>
+    have hc' : isTrimSpace c = false := by simpa using hc
+    have h2' : s2 c d = false := by simpa using h2
+    have h3' : s3 c d e = false := by simpa using h3
+    exact ⟨c :: d :: e :: r'', by simp [trimRunes, hc', h2', h3']⟩
+end
+
+theorem dropWhile_decomp (y : Bytes) :
+    ∃ ws, y = ws ++ y.dropWhile isTrimSpace ∧ ∀ c ∈ ws, isTrimSpace c = true := by
+  induction y with
+  | nil => exact ⟨[], rfl, by simp⟩
+  | cons a l ih =>
+    by_cases ha : isTrimSpace a = true
+    · obtain ⟨ws, h1, h2⟩ := ih
+      refine ⟨a :: ws, ?_, ?_⟩
+      · simp only [List.dropWhile_cons, ha, if_true, List.cons_append]; rw [← h1]
+      · intro c hc
+        simp only [List.mem_cons] at hc
+        rcases hc with rfl | hc
+        · exact ha
+        · exact h2 c hc
+    · exact ⟨[], by simp [List.dropWhile_cons, ha], by simp⟩
+
+theorem dropWhile_head (y : Bytes) : ∀ a ∈ (y.dropWhile isTrimSpace).head?, isTrimSpace a = false := by
+  induction y with
+  | nil => simp
+  | cons a l ih =>
+    by_cases ha : isTrimSpace a = true
+    · simp only [List.dropWhile_cons, ha, if_true]; exact ih
+    · simp [List.dropWhile_cons, ha]
+
+/-- **for an ASCII text `y`, the trimmed `y ++ y'` starts with the trimmed `y`**
+    (if that is not empty) — whatever `y'` is -/
+theorem trimSpace_append_ascii (y y' : Bytes) (hy : ∀ c ∈ y, c < 128) (hne : trimSpace y ≠ []) :
+    ∃ x, trimSpace (y ++ y') = trimSpace y ++ x := by
+  rw [trimSpace_eq_ascii y hy] at hne ⊢
+  unfold trimSpaceAscii at hne ⊢
+  obtain ⟨ws, hws, hwsp⟩ := dropWhile_decomp y
+  generalize hz : y.dropWhile isTrimSpace = z at hws hne ⊢
+  have hzy : ∀ c ∈ z, c < 128 := fun c hc => hy c (by rw [hws]; simp [hc])
+  cases z with
+  | nil => simp at hne
+  | cons a z' =>
+    have ha : isTrimSpace a = false := by
+      have := dropWhile_head y a (by rw [hz]; rfl)
+      exact this
+    have ha128 : a < 128 := hzy a (by simp)
+    -- left trimming of the extension
+    have hL : trimLeft (y ++ y') = (a :: z') ++ y' := by
+      unfold trimLeft
+      rw [hws, List.append_assoc, trimRunes_pre _ _ hwsp, List.cons_append, trimRunes_keep highOnly_left a _ ha ha128]
+    -- the reversed text: trailing white space, then the last kept byte
+    obtain ⟨sp, hsp, hspp⟩ := dropWhile_decomp (a :: z').reverse
+    generalize hw : (a :: z').reverse.dropWhile isTrimSpace = w at hsp hne ⊢
+    cases w with
+    | nil => simp at hne
+    | cons k w' =>
+      have hk : isTrimSpace k = false := dropWhile_head (a :: z').reverse k (by rw [hw]; rfl)
+      have hk128 : k < 128 := by
+        apply hzy
+        have : k ∈ (a :: z').reverse := by rw [hsp]; simp
+        exact List.mem_reverse.mp this
+      obtain ⟨x', hx'⟩ := trimRunes_stop highOnly_right k w' hk hk128 (y'.reverse ++ sp)
+      refine ⟨x'.reverse, ?_⟩
+      unfold trimSpace trimRightRev
+      rw [hL, List.reverse_append, hsp, ← List.append_assoc, hx']
+      simp
+
+/-- **normalisation is monotone on ASCII prefixes**: the normal form of `p ++ q`
+    starts with the normal form of `p` (if that is not empty) -/
+theorem norm_append (p q : Bytes) (hp : ∀ c ∈ p, c < 128) (hne : trimSpace (collapse p) ≠ []) :
+    ∃ x, trimSpace (collapse (p ++ q)) = trimSpace (collapse p) ++ x := by
+  unfold collapse at hne ⊢
+  rw [collapseAux_append]
+  apply trimSpace_append_ascii _ _ _ hne
+  intro c hc
+  rcases collapseAux_mem p false c hc with h | h
+  · exact hp c h
+  · subst h; decide
+
+
+/-! ## the armored classifier once a block is shown -/
+
+theorem matchHeader_nil : matchHeader [] = none := by decide
+
+/-- **armored prefix stability**: an ASCII prefix `p` that shows the frame, its
+    period and one full base62 block whose 32 decoded bytes alone decide the binary
+    verdict (`hset`) is classified like every extension `p ++ q` of it — for
+    arbitrary bytes `q` -/
+theorem arm_block_stable (p q : Bytes) (hp : ∀ c ∈ p, c < 128) (brand typStr payload : Bytes)
+    (h : matchHeader (trimSpace (collapse p)) = some (brand, typStr, payload))
+    (h32 : 32 ≤ (decOf payload).length)
+    (hset : ∀ e, binarySlice (firstBlockOf payload ++ e) = binarySlice (firstBlockOf payload)) :
+    armoredPrefix (p ++ q) = armoredPrefix p := by
+  have hne : trimSpace (collapse p) ≠ [] := by
+    intro h0; rw [h0, matchHeader_nil] at h; cases h
+  obtain ⟨x, hx⟩ := norm_append p q hp hne
+  rw [armoredPrefix_norm, armoredPrefix_norm, hx]
+  exact norm_block_stable _ brand typStr payload x h h32 hset
+
+/-- the verdict in that situation, spelled out -/
+theorem arm_block_verdict (p : Bytes) (brand typStr payload : Bytes)
+    (h : matchHeader (trimSpace (collapse p)) = some (brand, typStr, payload))
+    (h32 : 32 ≤ (decOf payload).length) :
+    armoredPrefix p = conclude brand typStr (binarySlice (decOf payload)) := by
+  rw [armoredPrefix_norm, classifyNorm_header _ _ _ _ h, if_neg (by omega)]
+
+/-- a first block on which the binary classifier answers with a mode decides -/
+theorem settled_of_ok (b : Bytes) (r : Int × Version) (h : binarySlice b = .ok r) :
+    ∀ e, binarySlice (b ++ e) = binarySlice b := by
+  intro e
+  rw [h]
+  exact bin_ok_stable b e r.1 r.2 h
+
+/-- **a mode/version verdict that the first block carries never changes** -/
+theorem arm_ok_stable (p q : Bytes) (hp : ∀ c ∈ p, c < 128) (brand typStr payload : Bytes)
+    (h : matchHeader (trimSpace (collapse p)) = some (brand, typStr, payload))
+    (h32 : 32 ≤ (decOf payload).length)
+    (r : Int × Version) (hok : binarySlice (firstBlockOf payload) = .ok r) :
+    armoredPrefix (p ++ q) = conclude brand typStr (.ok r) ∧ armoredPrefix p = conclude brand typStr (.ok r) := by
+  have hset := settled_of_ok _ r hok
+  have hst := arm_block_stable p q hp brand typStr payload h h32 hset
+  have hv := arm_block_verdict p brand typStr payload h h32
+  obtain ⟨b, more, _, hd, _, h1, _⟩ := dec_first_block (charsOf payload) [] h32
+  have hfb : firstBlockOf payload = b := by unfold firstBlockOf; rw [hd]
+  have e1 : decOf payload = firstBlockOf payload ++ more := by rw [hfb]; exact h1
+  rw [e1, hset more, hok] at hv
+  exact ⟨by rw [hst, hv], hv⟩
+
 end Saltpack.Proofs.ClsStable
